@@ -27,6 +27,7 @@ func c15Check[T any](e T, want int) {
 	evs, _, _ := st.Read(ctx, OffsetOldest, 0)
 	vAssert(len(evs) == 1, "persisted")
 	vAssert(evs[0].Type == EventType(e), "stored-type-is-EventType")
+	vObserve("stored-type-name", evs[0].Type) // compared between engine and native build in the conformance runs
 
 	// typed replay subscription on a fresh bus
 	bus2 := New(WithStore(st))
@@ -249,5 +250,19 @@ func harnessC15SameNameDistinctTypes() {
 		c15LocalPlainPtr(n)
 		c15LocalNamed(n)
 		c15LocalPlain(n)
+	}
+}
+
+// c15Box is a generic event type; its reflect name carries the full import path of a named type argument.
+type c15Box[T any] struct {
+	V T `json:"v"`
+}
+
+//verif:entry property=C15 tier=both bounds="shape: instantiated generic struct with a named type argument, published by value or by pointer" cover="checked"
+func harnessC15GenericShapes() {
+	if vBool() {
+		c15Check(c15Box[evA]{V: evA{N: vInt(-3, 3)}}, 1)
+	} else {
+		c15Check(&c15Box[evA]{V: evA{N: vInt(-3, 3)}}, 1)
 	}
 }
